@@ -192,15 +192,15 @@ plan("C14", "exploration",
 REAL_W5 = ("REAL: services/api/grpc (gRPC server, TLS 1.3 with RequireAndVerifyClientCert, request-id/source-ip/client-info interceptors), all five registered services' handlers and "
            "services behind them on a loopback port; the repository's own test certificates and authority; clients built with crypto/tls. No bubble, no scheduler: calls are sequential. STUB: DKG sender.")
 q, t = tiers(50, 120, 50, 300)
-q["layers"] = all_matrix_layers(50, 120)
-t["layers"] = all_matrix_layers(50, 300)
+q["layers"] = all_matrix_layers(60, 120)
+t["layers"] = all_matrix_layers(60, 300)
 q["exhaustive"] = t["exhaustive"] = True
 q["require_complete"] = t["require_complete"] = [("matrix_cases", "matrix_total")]
 q["require_probes"] = t["require_probes"] = ["untrusted_calls", "permitted_calls_served"]
 plan("C19", "other",
      "complete table: server configuration {authority configured, no authority configured} x every method of the five registered gRPC services (16) x caller credential {plaintext, TLS without "
      "client certificate, self-signed with a permitted name, other authority with a permitted name, authority from the host trust store with a permitted name, certificate chained through a "
-     "non-CA certificate of the configured authority, valid unpermitted client, valid client-test01, valid client-test02, valid peer certificate} x target wallet {Wallet 1, Wallet 2} = 640 cases.",
+     "non-CA certificate of the configured authority, valid unpermitted client, valid client-test01, valid client-test02, valid peer certificate, a valid certificate followed in the chain by a self-made certificate bearing a permitted name (two variants)} x target wallet {Wallet 1, Wallet 2} = 768 cases.",
      q, t, real_vs_stub=REAL_W5,
      explanation="No scheduler and no fault sequence applies to this property; the check is an exhaustive table over a live in-process daemon edge (real gRPC, TLS, interceptors, handlers, services) "
                  "attacked by hostile and legitimate clients. Callers without a certificate from the configured authority must obtain no response message at all and change no state (with no "
